@@ -83,7 +83,7 @@ func New(c Client, tree *pb.Tree, workingDir string) *CASFileSystem {
 
 // Open opens the file with the given name
 func (fs *CASFileSystem) Open(name string) (iofs.File, error) {
-	return fs.open(filepath.Join(fs.workingDir, name))
+	return fs.open(filepath.Join(fs.workingDir, name), 0)
 }
 
 // FindNode returns the node proto for the given name. Either FileNode, DirectoryNode or SymlinkNode will be set, or an
@@ -107,7 +107,11 @@ func (fs *CASFileSystem) ChangeDir(path string) *CASFileSystem {
 	}
 }
 
-func (fs *CASFileSystem) open(name string) (iofs.File, error) {
+// maxSymlinks is the number of symlinks we'll follow when opening a file before giving up.
+// It matches the limit Linux applies when resolving a path.
+const maxSymlinks = 40
+
+func (fs *CASFileSystem) open(name string, followed int) (iofs.File, error) {
 	fileNode, dirNode, linkNode, err := fs.findNode(fs.root, name)
 	if err != nil {
 		return nil, err
@@ -117,7 +121,10 @@ func (fs *CASFileSystem) open(name string) (iofs.File, error) {
 		if filepath.IsAbs(linkNode.Target) {
 			return nil, fmt.Errorf("%v: symlink target was absolute which is invalid", name)
 		}
-		return fs.open(filepath.Join(filepath.Dir(name), linkNode.Target))
+		if followed >= maxSymlinks {
+			return nil, fmt.Errorf("%v: too many levels of symbolic links", name)
+		}
+		return fs.open(filepath.Join(filepath.Dir(name), linkNode.Target), followed+1)
 	}
 
 	if fileNode != nil {
